@@ -34,6 +34,7 @@ RecOK == ri > 0 =>
                 /\ Is(r.nfreqs_ok, 1, "returned_frequencies.one_per_component"))
       [] r.kind = "zero" -> Is(r.zero_ok, 1, "zero_amplitude.reduces_to_unmasked_extraction")
       [] r.kind = "zerofreq" ->     \* frequency 0: the mask is the constant amp * cos(phase), added before and removed after extraction
+                                    \* (also: the same extraction in a tiny unit - a mask is never "absent" because it is small)
             /\ Is(r.helper_ok, 1, "zero_frequency.mask_is_added_and_removed(get_next_imf_mask)")
             /\ Is(r.sift_ok, 1, "zero_frequency.mask_is_added_and_removed(mask_sift)")
       [] r.kind = "sched" -> Is(r.same, 1, "result.independent_of_schedule")
